@@ -408,6 +408,8 @@ def validate(trace_path, timeout=3000):
 
 
 def n_evals(sc):
+    if sc["kind"] == "vmap":
+        return 2
     return len(sc["obs"]) if sc["kind"] == "geo" else sum(1 for s in sc["steps"] if s["a"] == "cb")
 
 
@@ -422,6 +424,9 @@ def run(tier):
     life = gen_life(tier)
     log("behaviour generation %.1fs (%d behaviours)" % (time.time() - t0, len(life)))
     geo = gen_att_sweeps(rng, tier) + gen_ear(rng, tier) + gen_far(rng, tier) + gen_degenerate(rng, tier)
+    # a distance mapping installed through the handle (with a tween), then the emitter moves
+    geo += [{"kind": "vmap", "cls": "vmap", "d": d, "x1": x1, "x2": x2, "src": "grid-vmap"}
+            for d in (0, 2) for x1, x2 in ((3, 12), (10, 2), (0, 16), (8, 8), (16, 5))]
     scen = life + geo
     sp = os.path.join(OUT, "c15", "scen.ndjson")
     tp = os.path.join(OUT, "c15", "trace.ndjson")
@@ -458,7 +463,7 @@ def run(tier):
                 res.distinct.add(behaviour_hash([sc["nl"], sc["ml"], sc["nt"], [{k: v for k, v in s.items() if k not in ("pr", "z")} for s in sc["steps"]]]))
         else:
             head = json.dumps({k: v for k, v in sc.items() if k not in ("obs", "src")}, sort_keys=True)
-            for o in sc["obs"]:
+            for o in sc.get("obs", [0]):
                 res.distinct.add(behaviour_hash([head, o]))
     res.samples = [{k: (v[:6] if isinstance(v, list) else v) for k, v in s.items()} for s in (life[0], life[-1], geo[0], geo[len(geo) // 2])]
     by_src = {}
@@ -466,7 +471,7 @@ def run(tier):
         by_src[s["src"]] = by_src.get(s["src"], 0) + 1
     res.notes["sessions_by_source"] = by_src
     res.notes["life_cycle_sessions_from_tlc"] = len(life)
-    res.notes["geometry_renderings"] = sum(len(s["obs"]) for s in geo)
+    res.notes["geometry_renderings"] = sum(len(s.get("obs", [])) for s in geo)
     by = {}
     for b in bad:
         by["%s/%s" % (b["a"], b["reason"])] = by.get("%s/%s" % (b["a"], b["reason"]), 0) + 1
